@@ -30,6 +30,7 @@ def run(ctx):
         "M-EXCL": "order and size together are rejected",
         "N-NONECMP": "a parameter defaulting to None is not ordered against a number without a None test",
         "D-SAMPLE": "the size of every sample is the requested hyperedge size, drawn without replacement from the node range / pool",
+        "D-DISTINCT": "the set whose size ends a drawing loop holds canonical hyperedges (sorted tuple / frozenset), so it counts distinct node sets",
         "D-POOL": "the rewiring pool is filled only from the hyperedges selected for rewiring",
         "D-REWIRE": "exactly the listed hyperedges of the size are removed and one hyperedge of the same size is added for each",
     })
@@ -122,6 +123,37 @@ def run(ctx):
                 if d != "random.random_shuffle":  # (its population is the rewiring pool: D-POOL)
                     st = universe_status(v, pop)
                     res.add("D-SAMPLE", f, norm(n), "population", st, "" if st == "ok" else f"nodes are drawn from `{norm(v.inline(pop)) if pop is not None else '?'}`, not from the whole node universe (range(num_nodes) / the hypergraph's nodes)", loc(v.fi, n))
+    # ---- D-DISTINCT: the set whose size ends the drawing loop counts DISTINCT hyperedges: its elements are canonical
+    with res.guard("D-DISTINCT"):
+        from ..kinds import Seq, St, strip_none
+
+        for d in ("random.random_hypergraph", "random.add_random_edges", "scale_free.scale_free_hypergraph"):
+            v = ctx.view(d)
+            f = v.fi.short
+            found = 0
+            for w in walk_no_nested(v.fi.node):
+                if not isinstance(w, ast.While):
+                    continue
+                cnt = [x for x in ast.walk(w.test) if isinstance(x, ast.Call) and norm(x.func) == "len" and x.args and isinstance(x.args[0], ast.Name)]
+                if not cnt:
+                    continue
+                sname = cnt[0].args[0].id
+                for n in ast.walk(w):
+                    if isinstance(n, ast.Call) and isinstance(n.func, ast.Attribute) and n.func.attr == "add" and isinstance(n.func.value, ast.Name) and n.func.value.id == sname and n.args:
+                        found += 1
+                        e = v.inline(n.args[0])
+                        k = strip_none(v.kind(n.args[0]))
+                        outer = norm(e.func) if isinstance(e, ast.Call) else None
+                        inner = norm(e.args[0].func) if isinstance(e, ast.Call) and e.args and isinstance(e.args[0], ast.Call) else None
+                        if outer == "frozenset" or (outer == "tuple" and inner == "sorted") or (isinstance(k, Seq) and k.canon):
+                            st = "ok"
+                        elif outer in ("tuple", "list") or (isinstance(k, Seq) and not k.canon):
+                            st = "violation"
+                        else:
+                            st = "unknown"
+                        res.add("D-DISTINCT", f, norm(n), "canonical-element", st, "" if st == "ok" else f"the set that decides when enough hyperedges were drawn holds `{norm(e)[:80]}`, the nodes in drawing order: the same node set drawn in two orders is counted twice and later collapses into one hyperedge, so fewer distinct hyperedges than requested are returned", loc(v.fi, n))
+            if not found:
+                res.unknown("D-DISTINCT", f, "while len(edges) < n: edges.add(...)", "canonical-element", "no counting set recognised", loc(v.fi, v.fi.node))
     with res.guard("D-SAMPLE (activity driven)"):
         v = ctx.view("activity_driven.HOADmodel")
         f = v.fi.short
